@@ -20,6 +20,9 @@ type zzStore struct {
 	calls    int
 	failAt   int // 1-based call index that fails (0 = never)
 	nilMaps  bool
+	// every metadata answer handed out, with a copy taken at that moment (C11: answers are left alone)
+	handed     []AccountsMetadata
+	handedCopy []AccountsMetadata
 }
 
 func (s *zzStore) GetBalances(_ context.Context, q BalanceQuery) (Balances, error) {
@@ -93,6 +96,8 @@ func (s *zzStore) GetAccountsMetadata(_ context.Context, q MetadataQuery) (Accou
 				out[acc] = m
 			}
 		}
+		s.handed = append(s.handed, out)
+		s.handedCopy = append(s.handedCopy, zzCloneMeta(out))
 		return out, nil
 	}
 	for acc, m := range s.meta {
@@ -103,6 +108,18 @@ func (s *zzStore) GetAccountsMetadata(_ context.Context, q MetadataQuery) (Accou
 		out[acc] = c
 	}
 	return out, nil
+}
+
+func zzCloneMeta(m AccountsMetadata) AccountsMetadata {
+	out := AccountsMetadata{}
+	for acc, am := range m {
+		c := AccountMetadata{}
+		for k, v := range am {
+			c[k] = v
+		}
+		out[acc] = c
+	}
+	return out
 }
 
 func zzNewStore(kind string, e *zzEnv, meta AccountsMetadata) *zzStore {
